@@ -12,6 +12,7 @@ Set(obj, f, val) == [op |-> "set", obj |-> obj, f |-> f, val |-> val]
 Call(obj, m, args) == [op |-> "call", obj |-> obj, m |-> m, args |-> args]
 CallP(obj, path, m, args) == [op |-> "call", obj |-> obj, path |-> path, m |-> m, args |-> args]
 Ref(n) == [ref |-> n]
+ObsOp(n) == [op |-> "obs", obj |-> n]     \* size and encode n in the middle of its construction (results not judged)
 Nil == "nil"
 El(n, tree, ops) == [n |-> n, tree |-> tree, ops |-> ops]
 Nm(n, i) == n \o "_" \o ToString(i)
